@@ -102,14 +102,13 @@ def _iso(p, n_mol_per_g, ads="nitrogen", T=77.355, unit="mol"):
                                 branch="ads",
                                 material="verif-c14",
                                 adsorbate=ads,
-                                temperature=T,
                                 pressure_mode="relative",
                                 pressure_unit=None,
                                 loading_basis="molar",
                                 loading_unit=unit,
                                 material_basis="mass",
                                 material_unit="g",
-                                temperature_unit="K")
+                                **gen.temp_kw(T))
 
 
 def _restore(iso, r):
